@@ -75,7 +75,7 @@ def run_config(prop, cfg, tier, seed):
             res['checks'] += 1
             if rec.pc: res['nontrivial'] += 1   # decided on a solver-constructed path class
             if not cond:
-                res['problems'].append({'kind': 'check', 'label': label, 'inputs': rec.inputs(), 'path': k})
+                res['problems'].append({'kind': 'check', 'label': label, 'inputs': rec.inputs(), 'path': k, 'ints': rec.d.get('ints')})
         seen_labels = {}
         for idx, o in enumerate(rec.obl):
             res['obligations'] += 1
@@ -96,7 +96,7 @@ def run_config(prop, cfg, tier, seed):
             elif d['verdict'] == 'violated' and d['kind'] == 'nonconst':
                 res['inconclusive'].append({'what': 'vacuous: witness expression does not depend on any symbol', 'label': o[6], 'path': k})
             elif d['verdict'] == 'violated':
-                res['problems'].append({'kind': 'obl', 'label': o[6], 'occ': occ, 'okind': d['kind'], 'inputs': d.get('inputs', rec.inputs()), 'path': k, 'method': d['method']})
+                res['problems'].append({'kind': 'obl', 'label': o[6], 'occ': occ, 'okind': d['kind'], 'inputs': d.get('inputs', rec.inputs()), 'path': k, 'method': d['method'], 'ints': rec.d.get('ints')})
             else:
                 res['inconclusive'].append({'what': 'solver', 'label': o[6], 'method': d.get('method'), 'path': k})
         if not first['done'] and not cfg.validate:
@@ -118,7 +118,7 @@ def run_config(prop, cfg, tier, seed):
     res['stats'] = ex.stats
     # replay of every problem on the plain (un-instrumented) build
     for p in res['problems']:
-        prec, pinfo = fpsym.run_harness(plain, cfg.args, p['inputs'], work, cfg.timeout, None, tag='replay')
+        prec, pinfo = fpsym.run_harness(plain, cfg.args, p['inputs'], work, cfg.timeout, None, tag='replay', replay_ints=p.get('ints'))
         pf = classify_fault(prec, pinfo)
         if p['kind'] == 'fault':
             p['confirmed'] = bool(pf) ; p['replay_observed'] = pf or 'no fault in plain build'
@@ -198,18 +198,43 @@ def run_property(prop, configs, tier, seed, meta):
         return 2
     jobs = min(build.JOBS, max(1, len(configs)))
     results = []
-    with ProcessPoolExecutor(jobs) as ex:
-        futs = {ex.submit(run_config, prop, c, tier, seed): c for c in configs}
-        for f in as_completed(futs):
-            c = futs[f]
-            try:
-                r = f.result()
-            except Exception as e:
-                r = {'config': c.name, 'harness': c.harness, 'args': c.args, 'paths': 0, 'obligations': 0, 'discharged': 0, 'nontrivial': 0, 'checks': 0,
-                     'problems': [], 'inconclusive': [{'what': 'worker died', 'detail': str(e)}], 'assumed_away': 0, 'coverage_complete': False, 'samples': [], 'notes': {}, 'methods': {}, 'wall': 0, 'stats': {}}
+    # every configuration runs in its own process under a hard wall-clock limit (a solver call that ignores its timeout
+    # must not stall the check: the configuration is then reported as inconclusive)
+    import multiprocessing as mp
+    ctx = mp.get_context('fork')
+    pending = list(configs); running = []   # (process, conn, cfg, t_start, limit)
+    def blank(c, why):
+        return {'config': c.name, 'harness': c.harness, 'args': c.args, 'paths': 0, 'obligations': 0, 'discharged': 0, 'nontrivial': 0, 'checks': 0,
+                'problems': [], 'inconclusive': [{'what': why}], 'assumed_away': 0, 'coverage_complete': False, 'samples': [], 'notes': {}, 'methods': {}, 'wall': 0, 'stats': {}}
+    def worker(conn, c):
+        try:
+            conn.send(run_config(prop, c, tier, seed))
+        except Exception as e:
+            conn.send(blank(c, 'worker exception: %s' % str(e)[-500:]))
+        conn.close()
+    while pending or running:
+        while pending and len(running) < jobs:
+            c = pending.pop(0); pc, cc = ctx.Pipe(duplex=False)
+            pr = ctx.Process(target=worker, args=(cc, c)); pr.start(); cc.close()
+            budget = c.time_budget_s if c.time_budget_s else (90 if tier == 'quick' else 600)
+            running.append((pr, pc, c, time.time(), 3 * budget + 2 * c.timeout + 300))
+        still = []
+        for (pr, pc, c, t_start, limit) in running:
+            r = None
+            if pc.poll(0.02):
+                try: r = pc.recv()
+                except EOFError: r = blank(c, 'worker died without a result')
+                pr.join(5)
+            elif not pr.is_alive():
+                r = blank(c, 'worker died without a result'); pr.join(1)
+            elif time.time() - t_start > limit:
+                pr.kill(); pr.join(5); r = blank(c, 'hard wall-clock limit of %d s exceeded (a solver call or the normal-form computation did not return)' % limit)
+            if r is None: still.append((pr, pc, c, t_start, limit)); continue
             results.append(r)
             if os.environ.get('VERIF_VERBOSE'):
                 print('  [%s] paths=%d obl=%d/%d checks=%d problems=%d inconcl=%d cover=%s %.1fs' % (r['config'], r['paths'], r['discharged'], r['obligations'], r['checks'], len(r['problems']), len(r['inconclusive']), r['coverage_complete'], r['wall']), flush=True)
+        running = still
+        if running and not pending: time.sleep(0.05)
     results.sort(key=lambda r: r['config'])
     known = load_known()
     violations = []; known_hit = {}; unconfirmed = []; inconcl = []
